@@ -27,7 +27,6 @@ import (
 	"github.com/datastax/go-cassandra-native-protocol/message"
 	"github.com/datastax/go-cassandra-native-protocol/primitive"
 	gsnappy "github.com/golang/snappy"
-	plz4 "github.com/pierrec/lz4/v4"
 
 	"verif/mon"
 )
@@ -578,7 +577,7 @@ func decompress(alg string, b []byte) ([]byte, error) {
 			return nil, errors.New("lz4: declared length too large")
 		}
 		out := make([]byte, n)
-		w, err := plz4.UncompressBlock(b[4:], out)
+		w, err := lz4Block(b[4:], out)
 		if err != nil {
 			return nil, err
 		}
@@ -1076,4 +1075,55 @@ func (c *Cluster) systemRows(x *Conn, table string) message.Message {
 			[]byte(c.cfg.ReleaseVersion), schema[:], u[:]})
 	}
 	return &message.RowsResult{Metadata: &message.RowsMetadata{ColumnCount: int32(len(cols)), Columns: cols}, Data: rows}
+}
+
+// lz4Block is the harness' own LZ4 block decoder (the pierrec/lz4 v4.0.3 decoder rejects some valid blocks).
+func lz4Block(src, dst []byte) (int, error) {
+	bad := errors.New("lz4: invalid block")
+	si, di := 0, 0
+	readLen := func(l int) (int, bool) {
+		if l == 15 {
+			for {
+				if si >= len(src) {
+					return 0, false
+				}
+				b := src[si]
+				si++
+				l += int(b)
+				if b != 255 {
+					break
+				}
+			}
+		}
+		return l, true
+	}
+	for si < len(src) {
+		tok := src[si]
+		si++
+		lit, ok := readLen(int(tok >> 4))
+		if !ok || lit > len(src)-si || lit > len(dst)-di {
+			return 0, bad
+		}
+		copy(dst[di:], src[si:si+lit])
+		si += lit
+		di += lit
+		if si == len(src) {
+			return di, nil
+		}
+		if len(src)-si < 2 {
+			return 0, bad
+		}
+		off := int(src[si]) | int(src[si+1])<<8
+		si += 2
+		ml, ok := readLen(int(tok & 15))
+		ml += 4
+		if !ok || off == 0 || off > di || ml > len(dst)-di {
+			return 0, bad
+		}
+		for k := 0; k < ml; k++ {
+			dst[di] = dst[di-off]
+			di++
+		}
+	}
+	return di, nil
 }
